@@ -23,10 +23,10 @@ func init() {
 	register(&PropertyDef{
 		ID:          "C10",
 		Title:       "A crash at any write leaves the secret store consistent and usable",
-		Explanation: "Decides write-order and persistence constraints from the SSA of pkg/secretstore, with datastore/keystore effects labelled by the namespace constant that reaches the key argument: (D1) on the open path the key is stored under the message CID before the precomputed key is deleted, and the next precomputed key is written before the chain key is advanced, in every function where two such writes are distinct sites; (D2) every success return of SealEnvelope is dominated by an accepted Put of the chain key (the only tolerated early return is the monotone counter guard), and the precomputed key is written before the chain key; (D3) registration writes/commits the precomputed window before the chain key; (D4) get-or-generate named keys: the generated key is returned only after keystore.Put of that same value succeeded, and the lookup precedes the generation; (D5) errors of the mutating operations on these namespaces are tested and reject. Each constraint covers every crash point between the two writes. Not decided: atomicity of datastore batches, partial non-batched window writes, exhaustive crash-point x workload exploration.",
-		Trusted:     []string{"go/packages+go/ssa (x/tools v0.29.0)", "go-datastore Put/Delete/Commit are durable when they return nil", "ipfs keystore Put/Get semantics"},
+		Explanation: "Decides write-order and persistence constraints from the SSA of pkg/secretstore, with datastore/keystore effects labelled by the namespace constant that reaches the key argument: (D1) on the open path the key is stored under the message CID before the precomputed key is deleted, and the next precomputed key is written before the chain key is advanced, in every function where two such writes are distinct sites; (D2) every success return of SealEnvelope is dominated by an accepted Put of the chain key (the only tolerated early return is the monotone counter guard), and the precomputed key is written before the chain key; (D3) registration writes/commits the precomputed window before the chain key; (D4) get-or-generate named keys: the generated key is returned only after keystore.Put of that same value succeeded, and the lookup precedes the generation; (D5) errors of the mutating operations on these namespaces are tested and reject; (D7, same analysis as C09.D7, for the keystore) a named key is generated only when the keystore lookup reported exactly keystore.ErrNoSuchKey, and every module keystore implementation returns that sentinel only for the datastore's not-found outcome (or after a successful read): a read fault never makes the device mint new account/device keys over the stored ones; (D8, who may wrap) every constructor of a datastore (or keystore) value called on the construction path of the secret store - the functions reachable from the exported constructors, plus the argument expressions of their module callers - is one of the known write-through ones (keytransform.Wrap, namespace.Wrap, sync.MutexWrap, the NewMapDatastore leaf); module types on that path that are datastores/keystores themselves take Put/Delete from the embedded datastore interface or perform the write on the wrapped store before returning success; anything else (autobatch.NewAutoBatching, delayed, a home-made buffer) is reported, so keys are never handed out while they exist only in a write buffer; (D9) every success return that follows a successful Batch() passes a Commit that succeeded. Each constraint covers every crash point between the two writes. Not decided: atomicity of datastore batches, partial non-batched window writes, exhaustive crash-point x workload exploration.",
+		Trusted:     []string{"go/packages+go/ssa (x/tools v0.29.0)", "go-datastore Put/Delete/Commit are durable when they return nil", "ipfs keystore Put/Get semantics", "go-datastore keytransform/namespace/sync wrappers and MapDatastore perform each write before returning (read from their source, v0.9.1)"},
 		Assumptions: []string{"one secret store instance per datastore; effects identified by the namespace constants of pkg/secretstore"},
-		Floors:      map[string]int{"D1": 2, "D2": 2, "D3": 1, "D4": 2, "D5": 6, "D6": 6},
+		Floors:      map[string]int{"D1": 2, "D2": 2, "D3": 1, "D4": 2, "D5": 6, "D6": 6, "D7": 2, "D8": 5, "D9": 1},
 		Run:         runC10,
 	})
 }
@@ -409,5 +409,341 @@ func runC10(c *Ctx) {
 			c.check(r.OK, "D5", construct, posOf(s.Instr), "write error is tested and rejects", "write error not propagated: "+r.Why)
 		}
 	}
-	_ = strings.Join
+
+	// ---- D7 "no such key" is reported only for the datastore's not-found outcome: a read
+	// fault never makes the device generate new account / device keys (shared with C09.D7)
+	checkMissSentinel(c, "D7", c09RoleNamedKey)
+
+	// ---- D8 only write-through wrappers between the given datastore and the stores written
+	checkDatastoreWrappers(c, "D8")
+
+	// ---- D9 every batch obtained is committed on every success path
+	checkBatchesCommitted(c, "D9")
+}
+
+// ---------------------------------------------------------------------------
+// D8 who may wrap the datastore
+
+// c10WriteThroughCtors: constructors of go-datastore values known not to defer writes.
+// Wrappers pass every Put/Delete to the child before returning; NewMapDatastore is the
+// volatile leaf of the in-memory store.
+var c10WriteThroughCtors = map[string]string{
+	pkgDatastore + "/keytransform.Wrap": "key prefixing, writes passed through",
+	pkgDatastore + "/namespace.Wrap":    "key prefixing, writes passed through",
+	pkgDatastore + "/sync.MutexWrap":    "mutex around every operation, writes passed through",
+	pkgDatastore + ".NewMapDatastore":   "in-memory leaf",
+}
+
+// c10IsDatastoreType: t offers the datastore read/write operations.
+func c10IsDatastoreType(t types.Type) bool {
+	if t == nil {
+		return false
+	}
+	has := func(t types.Type) bool {
+		ms := types.NewMethodSet(t)
+		for _, m := range []string{"Put", "Get", "Delete", "Has"} {
+			found := false
+			for i := 0; i < ms.Len(); i++ {
+				if ms.At(i).Obj().Name() == m {
+					found = true
+				}
+			}
+			if !found {
+				return false
+			}
+		}
+		return true
+	}
+	if has(t) {
+		return true
+	}
+	if _, isPtr := t.(*types.Pointer); !isPtr {
+		if _, isIface := t.Underlying().(*types.Interface); !isIface {
+			return has(types.NewPointer(t))
+		}
+	}
+	return false
+}
+
+// c10DatastoreCtorCall: ci calls a function outside the module that yields a datastore.
+func c10DatastoreCtorCall(ci ssa.CallInstruction) (string, bool) {
+	cc := ci.Common()
+	if cc.IsInvoke() {
+		return "", false
+	}
+	f := staticCallee(cc)
+	if f == nil || inModule(f) {
+		return "", false
+	}
+	res := f.Signature.Results()
+	for i := 0; i < res.Len(); i++ {
+		if c10IsDatastoreType(res.At(i).Type()) {
+			return calleeKey(cc), true
+		}
+	}
+	return "", false
+}
+
+func checkDatastoreWrappers(c *Ctx, rule string) {
+	w := c.W
+	iface := namedType(w, pkgSecret, "SecretStore")
+	sp := w.pkg(pkgSecret)
+	if iface == nil || sp == nil {
+		c.undecided(rule, "SecretStore", token.NoPos, "secretstore.SecretStore not found")
+		return
+	}
+	// constructors: exported functions of the package that return a SecretStore
+	var roots []*ssa.Function
+	for _, m := range sp.Members {
+		fn, ok := m.(*ssa.Function)
+		if !ok || fn.Object() == nil || !fn.Object().Exported() || fn.Signature.Recv() != nil {
+			continue
+		}
+		res := fn.Signature.Results()
+		if res.Len() > 0 && types.Identical(res.At(0).Type(), iface) {
+			roots = append(roots, fn)
+		}
+	}
+	if len(roots) == 0 {
+		c.undecided(rule, "constructors", token.NoPos, "no exported function returning a SecretStore found")
+		return
+	}
+	rootSet := map[*ssa.Function]bool{}
+	for _, r := range roots {
+		rootSet[r] = true
+	}
+	scope := w.reachableFuncs(roots, 5)
+	// the expressions handed to the constructors by module callers belong to the path as well:
+	// walk them back through calls
+	extra := map[*ssa.Function]bool{}
+	var argCalls []ssa.CallInstruction
+	var back func(v ssa.Value, depth int, seen map[ssa.Value]bool)
+	back = func(v ssa.Value, depth int, seen map[ssa.Value]bool) {
+		v = stripConv(v)
+		if v == nil || seen[v] || depth > 6 {
+			return
+		}
+		seen[v] = true
+		switch x := v.(type) {
+		case *ssa.Phi:
+			for _, e := range x.Edges {
+				back(e, depth+1, seen)
+			}
+		case *ssa.Extract:
+			back(x.Tuple, depth+1, seen)
+		case *ssa.UnOp:
+			if al, ok := x.X.(*ssa.Alloc); ok && x.Op == token.MUL && al.Referrers() != nil {
+				for _, r := range *al.Referrers() {
+					if st, ok := r.(*ssa.Store); ok && st.Addr == ssa.Value(al) {
+						back(st.Val, depth+1, seen)
+					}
+				}
+			}
+		case *ssa.Call:
+			if f := staticCallee(x.Common()); f != nil && inModule(f) && f.Blocks != nil {
+				if !rootSet[f] {
+					extra[f] = true
+				}
+			} else if _, ok := c10DatastoreCtorCall(x); ok {
+				argCalls = append(argCalls, x)
+			}
+			for _, a := range x.Common().Args {
+				if c10IsDatastoreType(a.Type()) {
+					back(a, depth+1, seen)
+				}
+			}
+		}
+	}
+	nSites := 0
+	for _, fn := range w.ModFuncs {
+		for _, ci := range callsIn(fn, func(k string, cc *ssa.CallCommon) bool { f := staticCallee(cc); return f != nil && rootSet[f] }) {
+			if rootSet[fn] {
+				continue
+			}
+			nSites++
+			for _, a := range ci.Common().Args {
+				if c10IsDatastoreType(a.Type()) {
+					back(a, 0, map[ssa.Value]bool{})
+				}
+			}
+		}
+	}
+	c.count("secret_store_constructor_calls", nSites)
+	var extraRoots []*ssa.Function
+	for f := range extra {
+		extraRoots = append(extraRoots, f)
+	}
+	for f, d := range w.reachableFuncs(extraRoots, 3) {
+		if _, ok := scope[f]; !ok {
+			scope[f] = d
+		}
+	}
+	report := func(fn *ssa.Function, ci ssa.CallInstruction, key string) {
+		c.analysed(fn)
+		why, ok := c10WriteThroughCtors[key]
+		c.check(ok, rule, fnName(fn)+"+"+key, posOf(ci), "known write-through datastore constructor ("+why+")",
+			"the datastore the secret store / its keystore writes through is built with "+key+", which is not one of the known write-through wrappers: if it buffers or defers writes, keys and chain keys are handed out while they exist only in memory, and a crash before the flush loses them (new account/device keys after restart, orphaned chain keys)")
+	}
+	n := 0
+	for _, fn := range sortedFuncs(scope) {
+		for _, b := range fn.Blocks {
+			for _, in := range b.Instrs {
+				ci, ok := in.(ssa.CallInstruction)
+				if !ok {
+					continue
+				}
+				if key, ok := c10DatastoreCtorCall(ci); ok {
+					n++
+					report(fn, ci, key)
+				}
+			}
+		}
+	}
+	for _, ci := range argCalls {
+		if _, in := scope[ci.Parent()]; in {
+			continue
+		}
+		n++
+		report(ci.Parent(), ci, calleeKey(ci.Common()))
+	}
+	// module types that are datastores themselves and are built on the path: their own
+	// Put/Delete/Batch/Sync must come from the wrapped datastore (promoted), or pass the write on
+	for _, fn := range sortedFuncs(scope) {
+		for _, b := range fn.Blocks {
+			for _, in := range b.Instrs {
+				al, ok := in.(*ssa.Alloc)
+				if !ok {
+					continue
+				}
+				nt, ok := types.Unalias(al.Type().(*types.Pointer).Elem()).(*types.Named)
+				if !ok || nt.Obj().Pkg() == nil || !strings.HasPrefix(nt.Obj().Pkg().Path(), modulePath) || !c10IsDatastoreType(nt) {
+					continue
+				}
+				n++
+				c10CheckModuleWrapper(c, rule, nt, al)
+			}
+		}
+	}
+	if n == 0 {
+		c.undecided(rule, "datastore constructors", token.NoPos, "no datastore constructor found on the construction path of the secret store")
+	}
+}
+
+// c10CheckModuleWrapper: a module-defined datastore type writes through.
+func c10CheckModuleWrapper(c *Ctx, rule string, nt *types.Named, at ssa.Instruction) {
+	w := c.W
+	ei := w.effects()
+	construct := types.TypeString(nt, func(p *types.Package) string { return strings.TrimPrefix(p.Path(), modulePath+"/") }) + "+writes"
+	bad := ""
+	ms := types.NewMethodSet(types.NewPointer(nt))
+	for i := 0; i < ms.Len(); i++ {
+		sel := ms.At(i)
+		name := sel.Obj().Name()
+		if name != "Put" && name != "Delete" && name != "Batch" {
+			continue
+		}
+		if len(sel.Index()) > 1 {
+			// promoted from an embedded field: fine when that field is a datastore interface
+			// (its value is built by a constructor checked above)
+			st, _ := nt.Underlying().(*types.Struct)
+			if st != nil {
+				ft := st.Field(sel.Index()[0]).Type()
+				if _, isIface := ft.Underlying().(*types.Interface); !isIface {
+					if fn, ok := types.Unalias(ft).(*types.Named); ok && fn.Obj().Pkg() != nil && !strings.HasPrefix(fn.Obj().Pkg().Path(), modulePath) {
+						if p, ok := ft.(*types.Pointer); ok {
+							ft = p.Elem()
+						}
+						bad = fmt.Sprintf("%s is promoted from the embedded concrete type %s, which is not known to write through", name, types.TypeString(ft, nil))
+					}
+				}
+			}
+			continue
+		}
+		fo, ok := sel.Obj().(*types.Func)
+		if !ok {
+			continue
+		}
+		fn := w.Prog.FuncValue(fo)
+		if fn == nil || fn.Blocks == nil {
+			continue
+		}
+		c.analysed(fn)
+		if name == "Batch" {
+			continue // the batch contract (Commit) is D9 / D5
+		}
+		op := name
+		if ok, _ := ei.mustPerform(fn, func(e Effect) bool { return e.Op == op }, nil, 0); !ok {
+			bad = fmt.Sprintf("%s declares its own %s, which can return success without having performed %s on the wrapped datastore (write deferred or dropped)", nt.Obj().Name(), name, name)
+		}
+	}
+	c.check(bad == "", rule, construct, posOf(at), "module datastore/keystore wrapper: Put/Delete come from the wrapped datastore or pass the write on before returning", "module datastore/keystore wrapper on the secret store's write path does not write through: "+bad)
+}
+
+// ---------------------------------------------------------------------------
+// D9 batches are committed
+
+func checkBatchesCommitted(c *Ctx, rule string) {
+	w := c.W
+	ei := w.effects()
+	commit := func(e Effect) bool { return e.Op == "Commit" }
+	n := 0
+	for _, fn := range w.ModFuncs {
+		if fnPkg(fn) == nil || fnPkg(fn).Path() != pkgSecret {
+			continue
+		}
+		for _, ci := range callsIn(fn, func(k string, cc *ssa.CallCommon) bool {
+			if !cc.IsInvoke() || cc.Method.Name() != "Batch" {
+				return false
+			}
+			n, ok := types.Unalias(cc.Value.Type()).(*types.Named)
+			return ok && n.Obj().Pkg() != nil && n.Obj().Pkg().Path() == pkgDatastore
+		}) {
+			handedOn := false
+			for i := 0; i < fn.Signature.Results().Len(); i++ {
+				if isNamed(fn.Signature.Results().At(i).Type(), pkgDatastore, "Batch") {
+					handedOn = true
+				}
+			}
+			if handedOn {
+				c.note("%s: %s returns the batch it obtains; committing it is its callers' duty (not followed)", rule, fnName(fn))
+				continue
+			}
+			n++
+			c.analysed(fn)
+			construct := fnName(fn) + "+Batch->Commit"
+			in := ci.(ssa.Instruction)
+			e := errVerdict(ci)
+			// returns that need no commit: not after the Batch call, or on a side where Batch failed
+			var failed []edge
+			if e != nil {
+				failed = append(failed, edgesOfVerdict(e).Reject...)
+				for _, t := range c09SentinelTests(fn, e) {
+					failed = append(failed, t.Is)
+				}
+			}
+			exempt := func(r *ssa.Return) bool {
+				if r.Parent() != fn {
+					return false // returns of callees: no exemption
+				}
+				if !instrReaches(in, r) {
+					return true
+				}
+				for _, fe := range failed {
+					if edgeDominates(fe, r.Block()) {
+						return true
+					}
+				}
+				return false
+			}
+			ok, by := ei.mustPerform(fn, commit, exempt, 0)
+			msg := "the batch obtained here is never committed"
+			if len(by) > 0 {
+				msg = "success is returned at " + describeReturns(c, by) + " without a successful Commit of the batch obtained here"
+			}
+			c.check(ok, rule, construct, posOf(ci), "every success return after Batch() passes a Commit that succeeded", msg+": the writes put into the batch are lost although the caller goes on to store the chain key that depends on them")
+		}
+	}
+	if n == 0 {
+		c.note("%s: no datastore batch is obtained in %s", rule, pkgSecret)
+	}
 }
